@@ -143,7 +143,7 @@ impl Image {
 
 #[derive(Clone, Debug)]
 pub struct Diag {
-    /// "lex/parse", "backpatch", "emit"
+    /// "lex/parse", "backpatch", "emit"; "load" from `build_env` (the text assembled, the environment was refused)
     pub stage: &'static str,
     /// `{:?}` rendering of the report (what the CLI prints).
     pub rendered: String,
@@ -377,7 +377,8 @@ pub fn build_env(
     verif::take();
     match built {
         Ok(Ok(env)) => Ok((env, image)),
-        Ok(Err(report)) => Err(match diag_of("emit", report) {
+        // the same text assembled a moment ago: what fails here is the second pass or the loader
+        Ok(Err(report)) => Err(match diag_of("load", report) {
             Ok(d) => AsmOutcome::Rejected(d),
             Err(abort) => AsmOutcome::Crashed {
                 stage: "render-diagnostic",
